@@ -112,7 +112,7 @@ CLAIMS = {
               "the element filters element rows and keeps the correlation). Tie: generated flatten queries (all selections, conditions on "
               "element / parent / both / disjunction / membership) compared as exact row sequences with the model, cache off and on."),
         design='7/C16', technique='Coq proof (direct structural induction over parent domain and inner collection) + correspondence',
-        note=BASE_NOTE + " Conditions other than element-vs-literal are covered by correspondence only; the value subset has one level of nesting (a tuple of ints as an element of a collection)."),
+        note=BASE_NOTE + " Conditions other than element-vs-literal are covered by correspondence only; the value subset has one level of nesting (a tuple of ints as an element of a collection) and mappings (as collections: their keys)."),
     'C17': dict(
         text=("Machine-checked: C17_single (exactly one row carrying all inner elements in domain order and inner order with multiplicity, also "
               "for no parent / all-empty collections) and C17_membership (membership and non-membership of an outer variable select exactly the "
